@@ -81,6 +81,17 @@ def case_scenarios(w: ColExprWorld):
     c = w.case([(w.child("ew", w.B), w.child("ew", w.I))], w.child("ew", w.S))
     r = w.run(c, "dtype")
     out.append(("CaseExpr.dtype", "values without a common type -> DataTypeError", r == ("raise", "DataTypeError"), f"a case expression with Int64 and String values gives {r}"))
+    # ---- unresolved children: nothing is decided (and nothing cached) before every child has a type
+    for which in ("condition", "value", "default"):
+        unresolved = w.col(None, None, "unres")
+        conds = [(unresolved if which == "condition" else w.child("ew", w.B), unresolved if which == "value" else w.child("const", w.I))]
+        c = w.case(conds, unresolved if which == "default" else w.child("const", w.I))
+        r = w.run(c, "dtype")
+        out.append(("CaseExpr.dtype", f"unresolved {which} (a C-column): the type is undetermined and not cached",
+                    r == ("value", None) and c.attrs.get("_dtype") is None,
+                    f"a case expression whose {which} has no type yet (a `C.` column before the verb resolves it) gives {r} and caches _dtype = "
+                    f"{c.attrs.get('_dtype')!r}: a type decided early is inherited by the resolved copy, so the checks on the resolved "
+                    "children (boolean condition, common value type) never run"))  # fmt: skip
     # ---- ftype
     rank = {"const": 0, "ew": 0, "agg": 1, "win": 2}
     ft_of = {0: w.EW, 1: w.AGG, 2: w.WIN}
